@@ -98,6 +98,15 @@ def run(ctx):
         lines.append("go %s | | depth 3 searchmoves %s" % (f, " ".join(sub)))
         info.append((f, "searchmoves " + " ".join(sub), "searchmoves"))
         add(lines, info)
+    # (e) positions in which BOTH kings can still castle: the opponent's castling move inside a pv (a castling move carries no squares, its
+    #     text depends on the position it is printed for)
+    cm = [f for f in posgen.filter_valid(model, posgen.castling_middlegames(rng, 90 if q else 900))]
+    rc, res, err = run_lines(model, ["legal " + f for f in cm], shards=NPROC)
+    for f, r in zip(cm, res):
+        legal[f] = (r or "0").split()[1:]
+    for f in cm:
+        if legal[f]:
+            add(["go %s | | depth 4" % f, "go %s | | depth 6" % f], [(f, "depth 4", "both-can-castle"), (f, "depth 6", "both-can-castle")])
     results, crashes = run_sessions(drv, sessions)
     for (si, rc, err) in crashes[:3]:
         ctx.violation("search driver died (rc=%d) during a session: %s" % (rc, err[-400:]),
@@ -149,8 +158,11 @@ def run(ctx):
     # every printed pv must be a legal line (judged by the extracted rules)
     rc, pres, err = run_lines(model, pv_cases, shards=NPROC)
     npv = 0
+    nopp = 0
     for case, (lines, ln, f, lim, pv, dep), pr in zip(pv_cases, pv_meta, pres):
         npv += 1
+        if any(i % 2 == 1 and m in (("e8g8", "e8c8") if f.split()[1] == "w" else ("e1g1", "e1c1")) for i, m in enumerate(pv)):
+            nopp += 1
         lists = (pr or "").split(" ; ")
         bad = None
         if not pv:
@@ -223,6 +235,20 @@ def run(ctx):
             if nviol <= 8:
                 ctx.violation("UCI session [%s ; go]: %s" % (" ; ".join(c[:120] for c, _ in s_), bad),
                               {"session": [c for c, _ in s_] + ["go depth 2"], "expected_position": e, "legal": lm, "answer": b}, key="c05:sess:" + " ; ".join(c for c, _ in s_)[:300])
+    # ... and every pv printed by the binary is a legal line from the position the commands describe
+    upv = [(s_, e, pv) for (s_, e, lm), gt in zip(keep, ugot) if gt for pv in gt[-1].get("pvs", []) if pv]
+    rcu, upr, eu = run_lines(model, ["g_legal %s | %s" % (e, " ".join(pv)) for (_, e, pv) in upv], shards=NPROC)
+    for (s_, e, pv), pr in zip(upv, upr):
+        npv_u = (pr or "").split(" ; ")
+        for i, m in enumerate(pv):
+            if i >= len(npv_u) or m not in npv_u[i].split()[1:]:
+                nviol += 1
+                if nviol <= 8:
+                    ctx.violation("UCI session [%s ; go]: printed pv '%s': move %d (%s) is not legal at its place in the line (position %s)"
+                                  % (" ; ".join(c[:120] for c, _ in s_), " ".join(pv), i + 1, m, e),
+                                  {"session": [c for c, _ in s_], "expected_position": e, "pv": pv}, key="c05:sesspv:" + e + " ".join(pv))
+                break
+    ctx.notes["uci_session_pv_lines_checked"] = len(upv)
     ngo += nuci
     ctx.notes["uci_sessions_with_final_go"] = nuci
     ctx.cov["evaluations"] = ngo
@@ -230,6 +256,7 @@ def run(ctx):
     ctx.cov["traces_validated_against_impl"] = nconf
     ctx.notes["go_commands_by_kind"] = kinds
     ctx.notes["pv_lines_checked"] = npv
+    ctx.notes["pv_lines_with_a_castling_shaped_move_of_the_opponent"] = nopp
     ctx.notes["node_exits_with_pv_checked"] = npvnodes[0]
     ctx.notes["root_calls_checked"] = nroot
     for (lines, ln, r, g) in drive_meta[:3]:
